@@ -99,6 +99,20 @@ Theorem c04_pages_of_flat_calls_follow_the_transclusion_rule :
 Proof. exact flat_pages. Qed.
 Print Assumptions c04_pages_of_flat_calls_follow_the_transclusion_rule.
 
+(* #if with plain arguments, wherever it stands (any expansion path below the depth limit, with or without full
+   expansion): the second argument when the first is not blank, else the third; trimmed; absent arguments are empty *)
+Theorem c04_if_with_plain_arguments :
+  forall pfnames lib opts stk ea cond more,
+    (length stk < 100)%nat -> plain cond = true -> forallb plain more = true -> o_parserfns opts = true ->
+    exists F, forall fuel, (F <= fuel)%nat ->
+      expand_T pfnames lib opts fuel stk ea ((if_head ++ cond)%list :: more) = Some (if_result cond more).
+Proof. exact if_plain. Qed.
+Print Assumptions c04_if_with_plain_arguments.
+
+Example c04_if_example :      (* {{#if: |x| *y }} gives "\n*y" *)
+  codes (if_result (chars [32]) [chars [120]; chars [32; 42; 121; 32]]) = [10; 42; 121].
+Proof. reflexivity. Qed.
+
 Theorem c04_flat_rule_is_mediawikis_without_trailing_line_breaks :
   forall lib name args t, find_tpl lib name = Some t -> no_trailing_nl (bind_args args 1 []) = true ->
     result_of lib name args = mw_result_of lib name args.
